@@ -66,15 +66,19 @@ func (x *Worker) wait() {
 		}
 		x.wg = nil
 		x.mu.Unlock()
+		verifAt("worker.after.unlocked1", nil, 0)
 		verifAt("worker.wait.wgwait", x, 0)
 		wg.Wait()
+		verifAt("worker.after.woke1", nil, 0)
 	}
 	verifAt("worker.wait.stop", x, 0)
 	close(x.stop)
 	verifAt("worker.wait.recv", x, 0)
 	<-x.done
+	verifAt("worker.after.passed1", nil, 0)
 	x.stop, x.done = nil, nil
 	x.mu.Unlock()
+	verifAt("worker.after.unlocked2", nil, 0)
 }
 func (x *Worker) do(fn func(stop <-chan struct{})) {
 	verifAt("worker.do.start", x, 0)
